@@ -155,7 +155,7 @@ Proof.
   - (* route found by trailing slash *)
     destruct (negb (f_connect f) && negb (f_root f) && true) eqn:Eg.
     + destruct (ri_ignore_ts ri) eqn:Eig.
-      * intro EQ; injection EQ as <- <-. destruct (Hwf Etsr) as (tp & Etp).
+      * intro EQ; injection EQ as <- <-. destruct (Hwf Etsr) as ((tp & Etp) & Hrt).
         split.
         -- obs_simpl. rewrite Ec; simpl. upd_simpl. rewrite Hrec; simpl.
            rewrite slice_read_put_ctx, (Rt tp Etp). unfold shape_of, lk_tsr_params, lk_rid. rewrite Etp, Eroute, Eh, Eq. reflexivity.
@@ -203,7 +203,7 @@ Proof.
   split.
   - obs_simpl. rewrite Ec; simpl. rewrite Er, Eu, Eh, Eq. unfold lk_rid. rewrite Eroute.
     destruct (lk_tsr l) eqn:Etsr; simpl.
-    + destruct (Hwf Etsr) as (tp & Etp). rewrite slice_read_put_ctx, (Rt tp Etp).
+    + destruct (Hwf Etsr) as ((tp & Etp) & Hrt). rewrite slice_read_put_ctx, (Rt tp Etp).
       unfold lk_tsr_params. rewrite Etp. reflexivity.
     + rewrite slice_read_put_ctx, Rp. reflexivity.
   - exists sp, st. obs_simpl. rewrite Ec; simpl. repeat split; auto.
@@ -293,14 +293,14 @@ Definition query_coherent (H : heap) (c : addr) : Prop :=
   | _, _ => True
   end.
 
-Lemma size_getter_snapshot rw :
-  let sz := if rec_written rw then rec_size_getter rw else notWritten in
-  (if sz <? 0 then 0 else sz)%Z = rec_size_getter rw /\ negb (sz =? notWritten)%Z = rec_written rw.
+Lemma snapshot_getters rw u st hj :
+  rec_size_getter (mkRec u (if rec_written rw then rec_size_getter rw else notWritten) st hj) = rec_size_getter rw /\
+  rec_written (mkRec u (if rec_written rw then rec_size_getter rw else notWritten) st hj) = rec_written rw.
 Proof.
-  unfold rec_written, rec_size_getter, notWritten. simpl.
-  destruct (Z.eqb_spec (r_size rw) (-1)) as [E|E]; simpl.
-  - rewrite E. simpl. split; reflexivity.
-  - destruct (Z.ltb_spec (r_size rw) 0) as [L|L]; simpl.
+  unfold rec_written, rec_size_getter, notWritten. simpl r_size.
+  destruct (Z.eqb_spec (r_size rw) (-1)) as [E|E]; simpl negb; cbv iota.
+  - rewrite E. split; reflexivity.
+  - destruct (Z.ltb_spec (r_size rw) 0) as [L|L].
     + split; reflexivity.
     + destruct (Z.ltb_spec (r_size rw) 0); [lia|].
       destruct (Z.eqb_spec (r_size rw) (-1)); [lia|]. split; reflexivity.
@@ -338,20 +338,20 @@ Proof.
     + destruct (c_tsrp (ctxs H c)) as [s|] eqn:Es; [|discriminate]. simpl in Hobs |- *.
       unfold writer_view in Hobs. rewrite Eu in Hobs. injection Hobs as <-.
       eexists. split; [reflexivity|]. split; [|split; [simpl; lia|]].
-      * obs_simpl. rewrite Etsr. simpl. unfold slice_read at 1. simpl. upd_simpl. simpl.
-        fold (slice_read H s). unfold slice_read at 1. rewrite firstn_firstn, Nat.min_id. fold (slice_read H s).
-        pose proof (size_getter_snapshot (recs H w)) as [S1 S2]. simpl in S1, S2.
-        unfold rec_size_getter at 1, rec_written at 1. simpl. rewrite S1, S2.
+      * obs_simpl. unfold slice_read; simpl; upd_simpl. rewrite firstn_firstn, Nat.min_id.
+        match goal with |- context [rec_size_getter (mkRec ?u ?sz ?st ?hj)] =>
+          destruct (snapshot_getters (recs H w) u st hj) as [S1 S2] end.
+        rewrite S1, S2.
         destruct (c_cq (ctxs H c)) as [q|]; [rewrite Hq|]; simpl;
           (destruct nu; [simpl in Hfx; rewrite Hfx by reflexivity|]; reflexivity).
       * intros a Ha. simpl. upd_simpl. repeat split; reflexivity.
     + destruct (c_params (ctxs H c)) as [s|] eqn:Es; [|discriminate]. simpl in Hobs |- *.
       unfold writer_view in Hobs. rewrite Eu in Hobs. injection Hobs as <-.
       eexists. split; [reflexivity|]. split; [|split; [simpl; lia|]].
-      * obs_simpl. rewrite Etsr. simpl. unfold slice_read at 1. simpl. upd_simpl. simpl.
-        fold (slice_read H s). unfold slice_read at 1. rewrite firstn_firstn, Nat.min_id. fold (slice_read H s).
-        pose proof (size_getter_snapshot (recs H w)) as [S1 S2]. simpl in S1, S2.
-        unfold rec_size_getter at 1, rec_written at 1. simpl. rewrite S1, S2.
+      * obs_simpl. unfold slice_read; simpl; upd_simpl. rewrite firstn_firstn, Nat.min_id.
+        match goal with |- context [rec_size_getter (mkRec ?u ?sz ?st ?hj)] =>
+          destruct (snapshot_getters (recs H w) u st hj) as [S1 S2] end.
+        rewrite S1, S2.
         destruct (c_cq (ctxs H c)) as [q|]; [rewrite Hq|]; simpl;
           (destruct nu; [simpl in Hfx; rewrite Hfx by reflexivity|]; reflexivity).
       * intros a Ha. simpl. upd_simpl. repeat split; reflexivity.
@@ -362,15 +362,133 @@ Proof.
     + destruct (c_tsrp (ctxs H c)) as [s|] eqn:Es; [|discriminate]. simpl in Hobs |- *.
       unfold writer_view in Hobs. rewrite Eu in Hobs. injection Hobs as <-.
       eexists. split; [reflexivity|]. split; [|split; [simpl; lia|]].
-      * obs_simpl. rewrite Etsr. simpl. unfold slice_read at 1. simpl. upd_simpl. simpl.
-        fold (slice_read H s). unfold slice_read at 1. rewrite firstn_firstn, Nat.min_id. fold (slice_read H s).
+      * obs_simpl. unfold slice_read; simpl; upd_simpl. rewrite firstn_firstn, Nat.min_id.
         destruct (c_cq (ctxs H c)) as [q|]; [rewrite Hq|]; reflexivity.
       * intros a Ha. simpl. upd_simpl. repeat split; reflexivity.
     + destruct (c_params (ctxs H c)) as [s|] eqn:Es; [|discriminate]. simpl in Hobs |- *.
       unfold writer_view in Hobs. rewrite Eu in Hobs. injection Hobs as <-.
       eexists. split; [reflexivity|]. split; [|split; [simpl; lia|]].
-      * obs_simpl. rewrite Etsr. simpl. unfold slice_read at 1. simpl. upd_simpl. simpl.
-        fold (slice_read H s). unfold slice_read at 1. rewrite firstn_firstn, Nat.min_id. fold (slice_read H s).
+      * obs_simpl. unfold slice_read; simpl; upd_simpl. rewrite firstn_firstn, Nat.min_id.
         destruct (c_cq (ctxs H c)) as [q|]; [rewrite Hq|]; reflexivity.
       * intros a Ha. simpl. upd_simpl. repeat split; reflexivity.
+Qed.
+
+(* ---------- the handler's own actions ---------- *)
+
+Definition hstep (a : act) (H : heap) (c : addr) : res heap :=
+  match a with
+  | ASetHeader k v => set_header H c k v
+  | AWriteHeader code => write_header H c code
+  | AWrite n => write_body H c n
+  | AQuery => Ok (fst (get_queries H c))
+  | AReqSetHeader k v => req_set_header H c k v
+  end.
+
+(* the context writes through a real (not discarded) writer in a sane state *)
+Definition live_writer (H : heap) (c : addr) : Prop :=
+  exists nu w h, c_w (ctxs H c) = Some (nu, w) /\ r_under (recs H w) = Some (false, h) /\ (-1 <= r_size (recs H w))%Z.
+
+Definition act_ok (a : act) : Prop := match a with AWrite n => (0 <= n)%Z | _ => True end.
+
+Lemma handler_step_correct a H c v :
+  observe H c = Ok v -> live_writer H c -> query_coherent H c -> act_ok a ->
+  exists H', hstep a H c = Ok H' /\ observe H' c = Ok (vstep a v) /\
+             live_writer H' c /\ query_coherent H' c /\
+             (forall x, pool_ok H x -> pool_ok H' x) /\ next H' = next H.
+Proof.
+  intros Hobs (nu & w & h & Ew & Eu & Hsz) Hq Hact.
+  pose proof Hobs as Hobs0.
+  unfold observe, ctx_params in Hobs. unfold query_coherent in Hq.
+  assert (Hps : exists ps, (if c_tsr (ctxs H c)
+            then match c_tsrp (ctxs H c) with Some s => Ok (slice_read H s) | None => Panic end
+            else match c_params (ctxs H c) with Some s => Ok (slice_read H s) | None => Panic end) = Ok ps).
+  { destruct (c_tsr (ctxs H c)); [destruct (c_tsrp (ctxs H c))|destruct (c_params (ctxs H c))]; try discriminate; eauto. }
+  destruct Hps as (ps & Eps). rewrite Eps in Hobs. simpl in Hobs.
+  destruct (c_req (ctxs H c)) as [r|] eqn:Er; [|discriminate].
+  rewrite Ew in Hobs. unfold writer_view in Hobs. rewrite Eu in Hobs. simpl in Hobs. injection Hobs as Hv. subst v.
+  assert (Hpool : forall Hx, next Hx = next H -> ctxs Hx = ctxs H ->
+                  forall x, pool_ok H x -> pool_ok Hx x).
+  { intros Hx En Ec x (sp & st & A & B & C & D & E). exists sp, st. rewrite Ec, En. auto. }
+  destruct a as [k v'|code|n| |k v']; simpl hstep.
+  - (* SetHeader *)
+    unfold set_header, writer_of. rewrite Ew. simpl. rewrite Eu.
+    eexists. split; [reflexivity|]. split; [|split; [|split; [|split]]].
+    + unfold observe, ctx_params, writer_view. simpl. change (slice_read (put_hdr H h (hset k v' (hdrs H h)))) with (slice_read H).
+      rewrite Eps. simpl. rewrite Er, Ew. simpl. rewrite Eu. simpl. upd_simpl. reflexivity.
+    + exists nu, w, h. simpl. auto.
+    + unfold query_coherent. simpl. rewrite Er. exact Hq.
+    + apply Hpool; reflexivity.
+    + reflexivity.
+  - (* WriteHeader *)
+    unfold write_header, writer_of. rewrite Ew. simpl. rewrite Eu.
+    unfold vstep, wstep. simpl.
+    unfold rec_written at 1.
+    destruct (r_hij (recs H w)) eqn:Ehij; simpl.
+    { exists H. repeat split; auto.
+      all: try (rewrite Hobs0; unfold vstep, wstep; simpl; unfold rec_written; rewrite ?Ehij, ?Ewr; reflexivity).
+      all: try (exists nu, w, h; now auto).
+      all: try (unfold query_coherent; rewrite Er; exact Hq). }
+    destruct (negb (r_size (recs H w) =? notWritten)%Z) eqn:Ewr; simpl.
+    { exists H. repeat split; auto.
+      all: try (rewrite Hobs0; unfold vstep, wstep; simpl; unfold rec_written; rewrite ?Ehij, ?Ewr; reflexivity).
+      all: try (exists nu, w, h; now auto).
+      all: try (unfold query_coherent; rewrite Er; exact Hq). }
+    eexists. split; [reflexivity|]. split; [|split; [|split; [|split]]].
+    + unfold observe, ctx_params, writer_view. simpl. change (slice_read (put_rec H w _)) with (slice_read H).
+      rewrite Eps. simpl. rewrite Er, Ew. simpl. upd_simpl. simpl. rewrite ?Ehij. reflexivity.
+    + exists nu, w, h. simpl. upd_simpl. simpl. repeat split; auto. lia.
+    + unfold query_coherent. simpl. rewrite Er. exact Hq.
+    + apply Hpool; reflexivity.
+    + reflexivity.
+  - (* Write *)
+    simpl in Hact.
+    unfold write_body, writer_of. rewrite Ew. simpl. rewrite Eu.
+    unfold vstep, wstep. simpl.
+    destruct (r_hij (recs H w)) eqn:Ehij; simpl.
+    { exists H. repeat split; auto.
+      all: try (rewrite Hobs0; unfold vstep, wstep; simpl; unfold rec_written; rewrite ?Ehij, ?Ewr; reflexivity).
+      all: try (exists nu, w, h; now auto).
+      all: try (unfold query_coherent; rewrite Er; exact Hq). }
+    eexists. split; [reflexivity|]. split; [|split; [|split; [|split]]].
+    + unfold observe, ctx_params, writer_view. simpl. change (slice_read (put_rec H w _)) with (slice_read H).
+      rewrite Eps. simpl. rewrite Er, Ew. simpl. upd_simpl. simpl. rewrite ?Ehij.
+      unfold rec_size_getter, rec_written, notWritten in *. simpl.
+      destruct (Z.eqb_spec (r_size (recs H w)) (-1)) as [E1|E1].
+      * rewrite E1. simpl.
+        destruct (Z.ltb_spec n 0); [lia|]. destruct (Z.eqb_spec n (-1)); [lia|]. reflexivity.
+      * destruct (Z.ltb_spec (r_size (recs H w)) 0); [lia|].
+        destruct (Z.ltb_spec (r_size (recs H w) + n) 0); [lia|].
+        destruct (Z.eqb_spec (r_size (recs H w) + n) (-1)); [lia|]. reflexivity.
+    + exists nu, w, h. simpl. upd_simpl. simpl. repeat split; auto.
+      unfold notWritten. destruct (Z.eqb_spec (r_size (recs H w)) (-1)); lia.
+    + unfold query_coherent. simpl. rewrite Er. exact Hq.
+    + apply Hpool; reflexivity.
+    + reflexivity.
+  - (* QueryParams *)
+    unfold get_queries. destruct (c_cq (ctxs H c)) as [q|] eqn:Ecq; simpl.
+    { exists H. repeat split; auto.
+      all: try (rewrite Hobs0; reflexivity).
+      all: try (exists nu, w, h; now auto).
+      all: try (unfold query_coherent; rewrite Er, Ecq; exact Hq). }
+    rewrite Er.
+    eexists. split; [reflexivity|]. split; [|split; [|split; [|split]]].
+    + unfold observe, ctx_params, writer_view. simpl. upd_simpl. simpl.
+      change (slice_read (put_ctx H c _)) with (slice_read H).
+      rewrite Eps. simpl. rewrite Er, Ew. simpl. rewrite Eu. reflexivity.
+    + exists nu, w, h. simpl. upd_simpl. simpl. auto.
+    + unfold query_coherent. simpl. upd_simpl. simpl. rewrite Er. reflexivity.
+    + intros x (sp & st & A & B & C & D & E). exists sp, st. simpl.
+      destruct (Nat.eq_dec x c) as [->|Hn]; upd_simpl; simpl; auto.
+    + reflexivity.
+  - (* Request().Header.Set *)
+    unfold req_set_header. rewrite Er.
+    eexists. split; [reflexivity|]. split; [|split; [|split; [|split]]].
+    + unfold observe, ctx_params, writer_view. simpl.
+      change (slice_read (put_req H r _)) with (slice_read H).
+      rewrite Eps. simpl. rewrite Er, Ew. simpl. rewrite Eu. upd_simpl. simpl.
+      destruct (c_cq (ctxs H c)); reflexivity.
+    + exists nu, w, h. simpl. auto.
+    + unfold query_coherent. simpl. rewrite Er. upd_simpl. simpl. exact Hq.
+    + apply Hpool; reflexivity.
+    + reflexivity.
 Qed.
